@@ -34,7 +34,7 @@ func (propC12) Plan(tier string) (int, int) {
 	if tier == "thorough" {
 		return 40000, 0
 	}
-	return 4000, 0
+	return 2500, 0
 }
 
 var ksQuick = []int{1, 2, 3, 4, 8, 16}
@@ -119,10 +119,11 @@ func (propC12) Execute(pp any, x *X) *Violation {
 	op := p.Op
 	var input []byte
 	if needsInput(op) {
-		input = FileFor(op.Img, op.Opt)
+		input = InputFor(op)
 	}
 	x.Workload(hashString(op.Key()))
 	var base Result
+	baseK := 1
 	sitesMulti := 0
 	for i, k := range p.Ks {
 		res, w := runOpWith(x, op, input, vsim.Config{Policy: vsim.PolCanonical, Procs: k})
@@ -139,14 +140,22 @@ func (propC12) Execute(pp any, x *X) *Violation {
 			}
 		}
 		if i == 0 {
-			base = res
+			base, baseK = res, k
 			continue
 		}
 		x.Count(fmt.Sprintf("compared_k%d", k), 1)
 		if !res.Same(base) {
-			sites := attributeSites(op, input, k, base)
-			return &Violation{Prop: "C12", Sig: "k-diff:" + op.Kind + ":" + codecFamily(op) + ":sites=" + strings.Join(sites, ","),
-				Detail: fmt.Sprintf("%s: worker count %d -> %s; worker count %d -> %s; minimal set of worker-count sites that must see %d for the difference: %v", op.String(), p.Ks[0], base.Short(), k, res.Short(), k, sites)}
+			sites := attributeSites(op, input, k, baseK, base)
+			v := &Violation{Prop: "C12", Sig: "k-diff:" + op.Kind + ":" + codecFamily(op) + ":sites=" + strings.Join(sites, ","),
+				Detail: fmt.Sprintf("%s: worker count %d -> %s; worker count %d -> %s; minimal set of worker-count sites that must see %d (others kept at %d) for the difference: %v", op.String(), baseK, base.Short(), k, res.Short(), k, baseK, sites)}
+			if x.IsKnown != nil && x.IsKnown(v.Sig) {
+				// an open known finding: note it and keep comparing the remaining worker
+				// counts against this one, so that it cannot mask another difference
+				x.NoteKnown(v.Sig, v.Detail)
+				base, baseK = res, k
+				continue
+			}
+			return v
 		}
 		if p.Fidelity && !x.Quiet && (k == p.Ks[1] || k == 4) {
 			if d, err := realOp(op, input, k); err != nil {
@@ -171,7 +180,7 @@ func (propC12) Execute(pp any, x *X) *Violation {
 // attributeSites delta-debugs the set of worker-count sites: start with every
 // site at k, move sites back to 1 one at a time while the difference persists.
 // (A superset of what a process can see; used for attribution only.)
-func attributeSites(op Op, input []byte, k int, base Result) []string {
+func attributeSites(op Op, input []byte, k, baseK int, base Result) []string {
 	// discover the sites this op reads
 	_, w := runOpWith(nil, op, input, vsim.Config{Policy: vsim.PolCanonical, Procs: k})
 	var sites []string
@@ -179,12 +188,12 @@ func attributeSites(op Op, input []byte, k int, base Result) []string {
 		sites = append(sites, st.Name)
 	}
 	sort.Strings(sites)
-	at1 := map[string]bool{}
+	atBase := map[string]bool{}
 	differs := func() bool {
 		sp := map[string]int{}
 		for _, s := range sites {
-			if at1[s] {
-				sp[s] = 1
+			if atBase[s] {
+				sp[s] = baseK
 			}
 		}
 		res, w := runOpWith(nil, op, input, vsim.Config{Policy: vsim.PolCanonical, Procs: k, SiteProcs: sp})
@@ -194,14 +203,14 @@ func attributeSites(op Op, input []byte, k int, base Result) []string {
 		return !res.Same(base)
 	}
 	for _, s := range sites {
-		at1[s] = true
+		atBase[s] = true
 		if !differs() {
-			at1[s] = false
+			atBase[s] = false
 		}
 	}
 	var need []string
 	for _, s := range sites {
-		if !at1[s] {
+		if !atBase[s] {
 			need = append(need, s)
 		}
 	}
